@@ -4,7 +4,7 @@
    missing predicates, stateIn, and / or / not); None = ImplementationMissingError.
    Tied to the code by the K-macro correspondence on exhaustively
    enumerated formulas (harness/props/c06.py). *)
-From XSM Require Import Model.Select Proofs.GuardP Proofs.SelectP.
+From XSM Require Import Model.Select Proofs.GuardP Proofs.SelectP Model.TreeLib Gen.GenGuard Proofs.GuardBridge.
 
 (* and / or / not have their ordinary boolean meaning at ANY nesting depth;
    a raising predicate counts as false *)
@@ -76,7 +76,31 @@ Theorem C06_missing_aborts_selection : forall f l1 t l2,
 Proof. exact filter_pass_missing. Qed.
 Print Assumptions C06_missing_aborts_selection.
 
+(* TIE T: the and / or / not part of _is_guard_satisfied is RE-TRANSLATED from the current source on every run
+   (Gen/GenGuard.v, harness/py2coq_guard.py: `all(...)` / `any(...)` over the recursing generator in Python's short-circuit
+   order with exceptions in the option monad, `not` on children[0]) and computes the model's `geval` at ANY nesting depth,
+   given the model's evaluation of the non-composite guards as oracle (those - stateIn, user predicate, raise = false,
+   missing = error - are tied to the code by the K-macro correspondence) *)
+Theorem C06_composites_are_the_source : forall m C cx g fuel, gdepth g < fuel ->
+  GenGuard.is_guard_satisfied fuel (geval m C cx) (Some g) = geval m C cx g.
+Proof. exact guard_bridge. Qed.
+Print Assumptions C06_composites_are_the_source.
+
+Theorem C06_transition_guard_is_the_source : forall m C cx t,
+  GenGuard.is_guard_satisfied (S (match t_guard t with Some g => gdepth g | None => 0 end)) (geval m C cx) (t_guard t)
+  = passes m C cx t.
+Proof. exact passes_bridge. Qed.
+Print Assumptions C06_transition_guard_is_the_source.
+
 (* non-vacuity *)
+Example C06_ex_source_nested :
+  let g := GAnd [GOr [GRaises 1; GCtxGe 0 1]; GNot (GAnd [GCtxGe 1 5; GMissing 9])] in
+  let m0 := Build_machine [] 10 None in
+  gdepth g = 3 /\
+  GenGuard.is_guard_satisfied 4 (geval m0 [] [(0, 1%Z)]) (Some g) = Some true /\
+  GenGuard.is_guard_satisfied 4 (geval m0 [] [(0, 1%Z); (1, 7%Z)]) (Some g) = None /\
+  GenGuard.is_guard_satisfied 4 (geval m0 [] []) (Some g) = Some false.
+Proof. vm_compute. repeat split; reflexivity. Qed.
 Example C06_ex_nested :
   let g := GAnd [GOr [GRaises 1; GCtxGe 0 1]; GNot (GAnd [GCtxGe 1 5; GMissing 9])] in
   no_missing g = false /\
